@@ -38,7 +38,7 @@ structure Cells (E : Type) where
   parent : Bool
   error : Option E
   source : Src
-  deriving Repr
+  deriving DecidableEq, Repr
 
 /-- `State::new(parent)`: "Errors are assumed to come from the deserializer by default." -/
 def Cells.new {E : Type} : Cells E := ⟨true, none, .de⟩
@@ -68,7 +68,7 @@ inductive Res (ε : Type) where
   | ok
   | err (e : ε)
   | panic (site : Site)
-  deriving Repr
+  deriving DecidableEq, Repr
 
 /-- What a call that was handed a visitor / seed leaves behind: the result it
 returned, the cells of that visitor / seed, the serializer's state, the ops
@@ -304,59 +304,91 @@ def display (fmtS : SErr → String) (fmtD : DErr → String) : Result → Strin
 /-! ## toml's `Output::transcode_from`
 
 `let value = ::toml::Value::deserialize(de)?;` — toml's own `Value` visitor is
-driven by the deserializer; there is no serializer and no `State`.  When the
-visitor refuses a value (toml has no null: `visit_unit` is not implemented, so
-serde's default returns `Err(de::Error::invalid_type(…))`, built with
-`custom(reason)`), the refusal travels back through the deserializer as *its*
-error type and is decorated like any other.  `refuse` says which scalars the
-target's visitor refuses, and with which reason text. -/
+driven by the deserializer; there is no serializer and no `State`, and the `?`
+converts the *deserializer's* error type.  When the target's visitor refuses
+something, it does so by returning `Err(de::Error::custom(reason))` (directly,
+or through serde's default `visit_*` → `invalid_type(…)`), which travels back
+through the deserializer as its own error type and is decorated like any
+other.  `Refusals` says what the target's visitor refuses, and with which
+reason text (toml 0.8: a unit/null, bytes, a `u64` above `i64::MAX` in value
+position; anything but a string in key position — `next_key::<String>()`; a key
+already in the table — "duplicate key"). -/
+
+/-- `deserialize_any` fails before calling the visitor. -/
+def _root_.Xt.Serde.De.failTok : De → Option Nat
+  | .fail e => some e
+  | .afail e => some e
+  | _ => none
+
+def _root_.Xt.Serde.De.isScalar : De → Bool
+  | .scalar _ => true
+  | _ => false
+
+structure Refusals where
+  /-- a scalar in value position -/
+  value : Scalar → Option String
+  /-- a key, decided by the first visitor call the key's deserializer makes -/
+  key : De → Option String
+  /-- an accepted key, given the keys accepted before it in this map -/
+  dup : List De → De → Option String
 
 mutual
-def tomlCollect (dec : DErr → DErr) (refuse : Scalar → Option String) : De → Option DErr
+/-- The error of `toml::Value::deserialize(de)`, if any. -/
+def tomlCollect (dec : DErr → DErr) (R : Refusals) : De → Option DErr
   | .scalar sc =>
-    match refuse sc with
+    match R.value sc with
     | some reason => some (dec (.custom reason))
     | none => none
   | .fail e => some (.own e)
   | .afail e => some (.own e)
   | .seq elems close =>
-    match tomlCollectList dec refuse elems with
+    match tomlCollectList dec R elems with
     | some e => some (dec e)
     | none => close.map .own
   | .map entries close =>
-    match tomlCollectEntries dec refuse entries with
+    match tomlCollectEntries dec R [] entries with
     | some e => some (dec e)
     | none => close.map .own
-def tomlCollectList (dec : DErr → DErr) (refuse : Scalar → Option String) : List De → Option DErr
+def tomlCollectList (dec : DErr → DErr) (R : Refusals) : List De → Option DErr
   | [] => none
   | e :: rest =>
     match e.accessFail with
     | some tok => some (.own tok)
     | none =>
-      match tomlCollect dec refuse e with
+      match tomlCollect dec R e with
       | some err => some err
-      | none => tomlCollectList dec refuse rest
-def tomlCollectEntries (dec : DErr → DErr) (refuse : Scalar → Option String) :
+      | none => tomlCollectList dec R rest
+def tomlCollectEntries (dec : DErr → DErr) (R : Refusals) (seen : List De) :
     List (De × De) → Option DErr
   | [] => none
   | (k, v) :: rest =>
     match k.accessFail with
     | some tok => some (.own tok)
     | none =>
-      match tomlCollect dec refuse k with
+      -- `next_key::<String>()`: the key's own `deserialize_any` frame decorates
+      match (match k.failTok with
+             | some e => some (DErr.own e)
+             | none =>
+               match R.key k with
+               | some reason => some (dec (.custom reason))
+               | none => if k.isScalar then none else tomlCollect dec R k) with
       | some err => some err
       | none =>
-        match v.accessFail with
-        | some tok => some (.own tok)
+        match R.dup seen k with
+        | some reason => some (.custom reason)
         | none =>
-          match tomlCollect dec refuse v with
-          | some err => some err
-          | none => tomlCollectEntries dec refuse rest
+          match v.accessFail with
+          | some tok => some (.own tok)
+          | none =>
+            match tomlCollect dec R v with
+            | some err => some err
+            | none => tomlCollectEntries dec R (seen ++ [k]) rest
 end
 
-/-- The error of toml's `transcode_from` up to `?`: always `Error::from(D::Error)`. -/
-def tomlTranscodeFrom (dec : DErr → DErr) (refuse : Scalar → Option String) (d : De) : Result :=
-  match tomlCollect dec refuse d with
+/-- toml's `transcode_from` up to the `?`: `Error::from(D::Error)`, always the
+deserializer's error type. -/
+def tomlTranscodeFrom (dec : DErr → DErr) (R : Refusals) (d : De) : Result :=
+  match tomlCollect dec R d with
   | some e => .errDe e
   | none => .ok
 
